@@ -31,6 +31,10 @@ func runC12(c *eng.Ctx, tier string) {
 		c.Undecided("anchor", nil, 0, "setec.Store / setec.cachedSecret", "type anchors do not resolve")
 		return
 	}
+	// R-C12-7: "once a poll has completed every later call returns its value
+	// or a newer one" rests on polls being serialised by the single-flight key
+	// and on every differing answer being installed (C11's mechanism)
+	includeOnly(c, "R-C12-7", func(sc *eng.Ctx) { runC11(sc, "quick") }, "R-C11-5", "R-C11-8")
 	l := moduleLocks(c)
 	accs := storeAccesses(p)
 	// R-C12-1
@@ -112,6 +116,7 @@ func runC12(c *eng.Ctx, tier string) {
 	}
 
 	storeBytesImmutable(c, "R-C12-3")
+	handleBoundToName(c, "R-C12-3")
 
 	// R-C12-4 removal guarded by the handle map; creation of handles; installs
 	nDel := 0
